@@ -197,7 +197,9 @@ def check(prop, tier, seed, nruns=None, nworkers=None, quiet=False):
             lines.append("VIOLATION property=%s replay=%s" % (PROP, path))
             lines.append("  clause=%s component=%s disc=%s :: %s" % (key[1], key[2], key[3], vv["detail"][:300]))
         if len(new_keys) > 4:
-            lines.append("  (+%d further distinct violation keys not minimised: %s)" % (len(new_keys) - 4, sorted(new_keys)[4:10]))
+            lines.append("  (+%d further distinct violation keys not minimised)" % (len(new_keys) - 4))
+            for k in sorted(new_keys)[:40]:
+                lines.append("    key %s/%s/%s run=%d :: %s" % (k[1], k[2], k[3], new_keys[k][0], new_keys[k][1]["detail"][:160]))
         wall = time.time() - t0
         mod_meta = _meta(prop)
         unreached = sorted(p for p in mod_meta.get("expected_probes", []) if probes.get(p, 0) == 0)
